@@ -61,6 +61,9 @@ var contracts = map[string]*Contract{
 	"(*" + pEtree + ".Element).RemoveChild":    {TreeMutator: true, MayNil: []int{0}, Note: "returns nil iff t.Parent() != e"},
 	"(*" + pEtree + ".Element).AddChild":       {TreeMutator: true, Note: "appends t (re-parenting it)"},
 	"(*" + pEtree + ".Element).Copy":           {Fresh: true, NonNil: []int{0}, Note: "deep copy, input unchanged"},
+	"(*" + pEtree + ".Document).Copy":          {Fresh: true, NonNil: []int{0}, Note: "deep copy of the whole document, input unchanged"},
+	"(*" + pEtree + ".Document).Indent":        {Writes: []int{0}, Note: "rewrites whitespace nodes of the document it is called on"},
+	"(*" + pEtree + ".Document).Unindent":      {Writes: []int{0}, Note: "removes whitespace nodes of the document it is called on"},
 	"(*" + pEtree + ".Element).CreateAttr":     {TreeMutator: true, NonNil: []int{0}, Note: "attribute value escaped on serialisation; key emitted verbatim"},
 	"(*" + pEtree + ".Element).CreateElement":  {TreeMutator: true, NonNil: []int{0}, Note: "tag emitted verbatim"},
 	"(*" + pEtree + ".Element).SetText":        {TreeMutator: true, Note: "text escaped on serialisation"},
